@@ -241,12 +241,16 @@ type vfC03Row struct {
 	PSK     bool
 	Variant string // cross dimension: plain | noems | cid | nohv | mtu100
 	SrvName string // the name the honest client is configured with (default vfServerName); may be an IP literal
+	Callback bool  // the honest side also installs a VerifyPeerCertificate callback that accepts whatever it is shown
 }
 
 func (r vfC03Row) ID() string {
 	id := fmt.Sprintf("%s/v%s/rogue-%s/%s/%s/policy%d/verify=%v/%s", r.Name, r.Ver, r.Rogue, r.Dev, r.Kind, r.Policy, r.Verify, r.Variant)
 	if r.SrvName != "" {
 		id += "/name=" + r.SrvName
+	}
+	if r.Callback {
+		id += "/permissive-callback"
 	}
 
 	return id
@@ -287,6 +291,7 @@ func vfC03Rows() []vfC03Row {
 						add("omit-certificate-and-verify", "reject")
 					}
 					if kind == "ecdsa" {
+						add("expires-between-connections", exp("reject", "accept"))
 						add("victim-chain-forged-digestless-scheme", "reject")
 						add("own-selfsigned-leaf-plus-victim-cert", exp("reject", "accept"))
 						add("unknown-ca", exp("reject", "accept"))
@@ -312,9 +317,9 @@ func vfC03Rows() []vfC03Row {
 				case RequireAnyClientCert:
 					table = map[string]string{"none": "reject", "valid": "accept", "unknown-ca": "accept", "expired": "accept", "stolen-chain-own-key": "reject", "omit-certificate-verify": "reject", "omit-certificate": "reject", "victim-chain-forged-digestless-scheme": "reject"}
 				case VerifyClientCertIfGiven:
-					table = map[string]string{"none": "accept", "valid": "accept", "unknown-ca": "reject", "expired": "reject", "stolen-chain-own-key": "reject", "omit-certificate-verify": "reject", "own-selfsigned-leaf-plus-victim-cert": "reject", "victim-chain-forged-digestless-scheme": "reject"}
+					table = map[string]string{"none": "accept", "valid": "accept", "unknown-ca": "reject", "expired": "reject", "stolen-chain-own-key": "reject", "omit-certificate-verify": "reject", "own-selfsigned-leaf-plus-victim-cert": "reject", "victim-chain-forged-digestless-scheme": "reject", "expires-between-connections": "reject"}
 				case RequireAndVerifyClientCert:
-					table = map[string]string{"none": "reject", "valid": "accept", "unknown-ca": "reject", "expired": "reject", "stolen-chain-own-key": "reject", "omit-certificate-verify": "reject", "omit-certificate": "reject", "own-selfsigned-leaf-plus-victim-cert": "reject", "victim-chain-forged-digestless-scheme": "reject"}
+					table = map[string]string{"none": "reject", "valid": "accept", "unknown-ca": "reject", "expired": "reject", "stolen-chain-own-key": "reject", "omit-certificate-verify": "reject", "omit-certificate": "reject", "own-selfsigned-leaf-plus-victim-cert": "reject", "victim-chain-forged-digestless-scheme": "reject", "expires-between-connections": "reject"}
 				}
 				for dev, e := range table {
 					ks := []string{"ecdsa"}
@@ -333,6 +338,20 @@ func vfC03Rows() []vfC03Row {
 			rows = append(rows, vfC03Row{Name: "psk/" + sn, Ver: "12", Rogue: "c", Dev: "wrong-psk", PSK: true, Expect: "reject", Variant: variant})
 			rows = append(rows, vfC03Row{Name: "psk/" + sn, Ver: "12", Rogue: "s", Dev: "wrong-psk", PSK: true, Expect: "reject", Variant: variant})
 		}
+	}
+	// An application callback that has no objection must not replace the library's own verdict: every row whose
+	// outcome rests on chain verification is repeated with a permissive VerifyPeerCertificate on the honest side.
+	chainDevs := map[string]bool{"control": true, "valid": true, "unknown-ca": true, "wrong-name": true, "expired": true, "expires-between-connections": true,
+		"own-selfsigned-leaf-plus-victim-cert": true, "ip-name-cert-for-other-name": true, "stolen-chain-own-key": true}
+	for _, r := range append([]vfC03Row(nil), rows...) {
+		if r.PSK || !chainDevs[r.Dev] || r.Kind != "ecdsa" || !r.Verify || r.Variant != "plain" {
+			continue
+		}
+		if r.Rogue == "c" && r.Policy != VerifyClientCertIfGiven && r.Policy != RequireAndVerifyClientCert {
+			continue
+		}
+		r.Callback = true
+		rows = append(rows, r)
 	}
 	// deterministic order
 	return rows
@@ -398,6 +417,8 @@ func vfC03Run(t *testing.T, res *vfResult, row vfC03Row) {
 				// a genuine certificate of the same CA, whose key the server holds, issued for a DNS name only
 			case "expired":
 				serverCert = pki.Leaf("ecdsa", "server-expired")
+			case "expires-between-connections":
+				serverCert = pki.Leaf("ecdsa", "server-shortlived")
 			case "stolen-chain-own-key":
 				serverCert = vfStolenChain(serverCert)
 			case "victim-chain-forged-digestless-scheme":
@@ -422,6 +443,8 @@ func vfC03Run(t *testing.T, res *vfResult, row vfC03Row) {
 				clientCert = pki.Leaf("ecdsa", "client-rogueca")
 			case "expired":
 				clientCert = pki.Leaf("ecdsa", "client-expired")
+			case "expires-between-connections":
+				clientCert = pki.Leaf("ecdsa", "client-shortlived")
 			case "stolen-chain-own-key":
 				clientCert = vfStolenChain(clientCert)
 			case "victim-chain-forged-digestless-scheme":
@@ -449,8 +472,41 @@ func vfC03Run(t *testing.T, res *vfResult, row vfC03Row) {
 		} else {
 			cO = append(cO, WithInsecureSkipVerify(true))
 		}
+		if row.Callback {
+			permissive := WithVerifyPeerCertificate(func([][]byte, [][]*x509.Certificate) error { return nil })
+			if row.Rogue == "s" {
+				cO = append(cO, permissive)
+			} else {
+				sO = append(sO, permissive)
+			}
+		}
 		co, so = vfCO(cO...), vfSO(sO...)
 		so = append(so, WithClientAuth(row.Policy), WithClientCAs(pki.Pool))
+	}
+	if row.Dev == "expires-between-connections" {
+		// The same peer, chain and configuration were accepted while the certificate was valid (required: it is the
+		// positive control); the judged connection is made twelve virtual hours later, after NotAfter.
+		so0 := so
+		if row.Variant == "nohv" || row.Ver == "13" {
+			so0 = append(append([]ServerOption(nil), so...), WithInsecureSkipVerifyHello(true))
+		}
+		p0, err := vfNewPair(vfNewNet(), co, so0)
+		if err != nil {
+			res.Count("config_rejected", 1)
+
+			return
+		}
+		ce, se := p0.Handshake(90 * time.Second)
+		p0.Close()
+		synctest.Wait()
+		if ce != nil || se != nil {
+			res.Violate(fmt.Sprintf("C03:positive-control-failed:v%s:rogue-%s:%s:first-connection", row.Ver, row.Rogue, row.Dev),
+				fmt.Sprintf("%s: the certificate is still valid on the first connection, which failed: client=%v server=%v", row.ID(), ce, se), map[string]any{"row": row})
+
+			return
+		}
+		res.Count("accepted_while_valid", 1)
+		time.Sleep(12 * time.Hour)
 	}
 	if row.Variant == "nohv" || row.Ver == "13" {
 		so = append(so, WithInsecureSkipVerifyHello(true))
